@@ -26,6 +26,16 @@ CHECKS = {
             "Complete matrices (18 left-hand sides x 13 operators x 15 literal kinds; every index path up to length 3 over every field; operand shapes x logical operators for all 2- and 3-operand chains; every function x every argument tuple up to the arity bound from a 19-argument pool) and all compositions of 11 typed / ill-typed leaves under not, parentheses, and/or/xor, any/all and calls up to depth 2: the engine must accept exactly those the reference typer accepts; every accepted filter or value expression is compiled and executed on five contexts (mandatory fields set) without panic, with the reference value and - for value expressions - a deep type walk.",
             "Typing rules audited in DESIGN.md §5 C04 (harness/src/sem.rs); only sentences of the grammar are generated (operator/literal syntax pairs that no left-hand type admits are outside).",
             "DESIGN.md §5 C04"),
+    "C05": ("exploration",
+            "exhaustive enumeration of token strings and edit neighbourhoods; watchdog for non-termination; subprocess for size stressors",
+            "Every string of <=3 (quick) / <=4 (thorough) tokens over a 48-token alphabet hitting every lexer entry (identifiers, brackets, quotes, raw-string delimiters, escapes, digits, separators, operators, multi-byte and control characters) and the complete single-edit neighbourhood (delete, duplicate, truncate, insert each of 36 characters at each position; thorough: double edits on the 15 shortest) of a 62-filter corpus covering every construct is parsed as filter and as value expression: no panic, returns within the cap (watchdog), every error formats, and its text designates a line of the input with a column range inside that line. 41 size stressors (10^5-operand chains, 10^5-deep nestings of every construct, 10^5 list items / arguments / index accesses, raw strings with 255/256/10^5 hashes, giant identifiers and strings) run on a 2 MiB stack in a subprocess.",
+            "Error well-formedness is read from the Display text only; inputs outside the enumerated families are not explored.",
+            "DESIGN.md §5 C05"),
+    "C06": ("exploration",
+            "exhaustive enumeration of literal families and edit neighbourhoods against reference lexers",
+            "Integers (boundary values x decimal / 0x lower+upper / octal / zero-padded forms x 9 following contexts, all ordered range pairs), all 256 byte values in every escape, raw and hex-pair form, all byte strings of <=3 units over {a,\",\\,#,NUL,0xff,e-acute} in every expressing form, all raw bodies of <=4/5 over {a,\",#} x hash counts {0,1,2,3,255}, 12 addresses x textual forms, all ordered address range pairs, every CIDR prefix length 0..33 / 0..129 with and without host bits, index and key literals: the decoded value in the JSON (and typed AST) must be the rendered value, with the follower left unconsumed. Malformed classes and the complete single-edit neighbourhood of every integer and of 8 quoted strings are judged accept(value)/reject by reference lexers.",
+            "Reference lexers harness/src/lexref.rs implement the documented forms; leniency of std / cidr address parsing is not contested.",
+            "DESIGN.md §5 C06"),
     "C07": ("exploration",
             "bounded exhaustive enumeration of spellings per structure; engine JSON compared with a reference serialiser",
             "For every program of a 10k-filter corpus (every operator, index kind, call shape, literal form; all 1-3 operator boolean structures): every alias assignment of the first 8 operator occurrences x whitespace layouts (minimal, single, double, LF, CR/LF mix, each gap alone, Unicode whitespace around) must give equal ASTs, byte-identical JSON equal to the reference document, identical C-API hash and identical std Hash; serialising twice is identical; over the whole set the map JSON -> structure is injective.",
@@ -36,6 +46,16 @@ CHECKS = {
             "All lists of <=4 (quick) / <=5 (thorough) items over all 29 ranges of a 7-point i64 domain (extremes, adjacent and far points) x 13 probes + absent; all lists of <=3 / <=4 items over 45 IPv4/IPv6 items (addresses, CIDRs where the range is one, explicit ranges, ::/0, mapped block) x 22 probes of both families; all byte-string lists of <=4 over 6 strings in three literal forms; long lists (all items in several orders, all-but-one); mapped and indexed left-hand sides. Oracle: exists item with lo <= x <= hi in x's family.",
             "Endpoints outside the small domains are not explored (seed adds one).",
             "DESIGN.md §5 C09"),
+    "C10": ("exploration",
+            "exhaustive enumeration of needles x anchors x haystacks in two processes (SIMD / scalar) against a naive oracle",
+            "Needle lengths 0..=24 (quick) / 0..=40 (thorough) in four families over {a,b} (crossing the 0, 1, 2..16 and >16 specialisations), every SIMD anchor position 1..len-1 through the cfg-guarded override hook plus 8 compilations with the engine's own random anchor, x haystacks: every {a,b}-string of length <=9/12 behind paddings {0,15,16,17,31,32,33}, the needle embedded at every offset of every total length <=72/300 in four fillers with three near-misses each, and degenerate haystacks (empty, shorter, equal, one byte off). Two worker processes (AVX2 enabled / WIREFILTER_USE_AVX2=0, verified through verif::simd_active) must both equal the naive window comparison.",
+            "Hook: wirefilter::verif::set_anchor_override / simd_active. Without AVX2 hardware the SIMD half is reported as not covered.",
+            "DESIGN.md §5 C10"),
+    "C11": ("exploration",
+            "exhaustive enumeration of grammar-generated regexes and all short wildcard patterns x all short values against reference matchers",
+            "Every regex of <=4 (quick) / <=5 (thorough) nodes over {a,b,.,[ab],[^a],[\"],[\\]\"],\\x61,\",^,$} with ?,*,+,|,groups, in quoted and raw form, x every value of length <=3 over {a,b,A,\",LF,0xff}: result equals a backtracking reference matcher and the pattern stored in the JSON is the intended one; invalid regexes rejected; compiled-size limits {0,64,1024,65536,default} x dfa limits {0,default}: no panic, unchanged answers, monotone acceptance. Every wildcard pattern of length <=4/5 over {a,A,b,*,\\,?} x both operators x raw/quoted x every value of length <=3/4 (incl. 0xff): validity (escapes, **), case rule and whole-value matching per the reference; star limits 0..4.",
+            "Reference matchers harness/src/rx.rs; regex features outside the subset are not explored.",
+            "DESIGN.md §5 C11"),
     "C12": ("exploration",
             "exhaustive program corpus x every field name; oracle from the generating structure",
             "Every program of the sole-occurrence family (the only mention of a field at each AST position kind - lhs, index base, 1st/2nd/3rd call argument at depth 1-3, logical argument, quantifier argument in both forms, chain operand left/middle/right, under not/parentheses - inside or outside the lhs of an `in $list`, including `in $list` below plain call arguments 2-3 calls deep) and of the shared corpus x every field of the scheme and 7 non-field names, for uses and uses_list, on FilterAst and FilterValueAst.",
